@@ -16,5 +16,6 @@ MC_RandChoices == {1,2}
 MC_Msgs == {<<>>, <<104,105>>}
 MC_MaxExtra == 0
 MC_EMIT == TRUE
+MC_ListOrders == {"asc"}
 
 ====
